@@ -132,7 +132,8 @@ def finish_script(reqs, script):
         if r["slow"] and r["id"] not in done and any(e == ["req", r["id"]] for e in script): script.append(["done", r["id"]])
     script.append(["tick", 100000])
     for rem in sorted({r["remote"] for r in reqs}):
-        for _ in range(sum(1 for r in reqs if r["remote"] == rem) + 1): script.append(["ack", rem])
+        n = sum(1 + (len(r["outcome"]["actions"]) if r["outcome"]["k"] == "script" else 0) for r in reqs if r["remote"] == rem)
+        for _ in range(n + 1): script.append(["ack", rem])
     return script
 def budget_ticks(script, limit=1500000):
     total = 0; out = []
@@ -247,9 +248,9 @@ class C09(fw.Property):
     level_text = ("Theorems (closed under the global context): the decision table of final responses (default codes, renderable errors, bare 5.00, 4.04/4.05), "
                   "the once-only final event of the request's pipes for every behaviour of the rendering coroutine and every stop(), and for the stack model: "
                   "per request at most one final response in every run, exactly one for every request whose handler gets to finish, content depending on that request only.")
-    level_note = ("Hand-written model tied to the code by the correspondence run only (no translated kernel). Two open findings (known_findings.d/C09.json): an error renderer "
-                  "returning a non-Message is never answered (modelled faithfully, C09_failing_renderer_gives_500_refuted); a returned Message that cannot be serialised can block "
-                  "the remote's backlog (outside the model, oracle-only stream). Not modelled: deduplication, retransmission, block-wise, observe, handlers raising BaseException "
+    level_note = ("Hand-written model tied to the code by the correspondence run only (no translated kernel). One open finding (known_findings.d/C09.json): a returned Message that cannot be serialised (str payload) can block "
+                  "the remote's backlog / leave the request un-ACKed (excluded from the model by the type of m_payload, exercised by the oracle-only stream 'unencodable'); "
+                  "the former finding (error renderer returning a non-Message never answered) is fixed in /repo (abf5426) and modelled as fixed. Not modelled: deduplication, retransmission, block-wise, observe, handlers raising BaseException "
                   "(CancelledError), Messages that carry a non-response code. Liveness of backlogged CON responses depends on client ACKs (C14).")
     rule = ("streams: single = one request (site/no site, known/unknown path, 7 methods + unknown codes, resources with partial method sets, CON/NON, No-Response values, "
             "multicast flag, fast/slow handler, every outcome kind) ; concurrent = 2-6 requests from 1-3 remotes with random interleaving of arrival, handler completion, "
@@ -261,7 +262,8 @@ class C09(fw.Property):
     trusted_base = ["hand-written Model/C09.v + Model/C09Stack.v (validated by the correspondence streams on every run)",
                     "harness: virtual-time loop, fake transport, scripted random (mid counter), handlers built from the case description"]
     assumptions = ["request message ids are fresh per remote (deduplication is C04)", "virtual time stays below ACK_TIMEOUT after a CON response (retransmission is C03)",
-                   "handler return values that are not Messages are builtin objects (str, int, bytes, tuple, dict, float, None)"]
+                   "handler return values that are not Messages are builtin objects (str, int, bytes, tuple, dict, float, None)",
+                   "response Messages serialise: payload is bytes (model type `bytes`); a str payload is the open finding C09:unencodable-response, exercised by the oracle-only stream"]
 
     # ------------------------------------------------------------------ cases
     def gen_cases(self, tier, rng, n):
@@ -551,6 +553,7 @@ class C09(fw.Property):
         def check_request(r):
             i = r["id"]
             kind, seq, completes = exp[i]; ws = got[i]
+            key_shared = sum(1 for q in reqs if q["id"] in started and q["remote"] == r["remote"] and q["token"] == r["token"]) > 1
             if kind == "return-noresponse": seq = []
             visible = [x for x in seq if not hidden(x)]
             if i in overridden or i not in finished:
@@ -567,12 +570,11 @@ class C09(fw.Property):
             for w in ws:
                 if w["code"] < 64 or w["code"] >= 192: return ("C09:not-a-response", "request %d answered with code %d" % (i, w["code"]))
                 if w["t"] == "RST": return ("C09:rst", "request %d answered by RST" % i)
-                if i in overrider: continue      # token reused while in flight: the old request's pending ACK may carry the answer (observation in notes)
+                if key_shared: continue      # token used by another request of the scenario: an earlier request's pending ACK may carry the answer (observation in notes)
                 if w["t"] == "ACK" and w["mid"] != r["mid"]: return ("C09:wrong-mid", "request %d: piggy-backed response with mid %d, request had %d" % (i, w["mid"], r["mid"]))
                 if w["t"] == "ACK" and not r["con"]: return ("C09:ack-to-non", "request %d was NON but got an ACK" % i)
                 if w["t"] == "CON" and not r["con"]: return ("C09:con-to-non", "request %d was NON but got a CON response" % i)
             if sum(1 for w in ws if w["t"] == "ACK") > 1: return ("C09:two-piggybacked", "request %d got two piggy-backed responses" % i)
-            key_shared = sum(1 for q in reqs if q["id"] in started and q["remote"] == r["remote"] and q["token"] == r["token"]) > 1
             if r["con"] and not key_shared and acks[i] != 1:
                 return ("C09:con-ack-count:%d" % acks[i], "CON request %d was acknowledged %d times" % (i, acks[i]))
             return None
